@@ -72,10 +72,14 @@ impl Prop for C09 {
             cfg.push_str(&format!("(deflayer l0 {} 1 (layer-while-held l1))\n", SINGLE_M[..nk].join(" ")));
             cfg.push_str(&format!("(deflayer l1 {} 1 _)\n", SINGLE_M[..nk].join(" ")));
             let mut ents: Vec<String> = vec![];
+            // each chord separately is disabled on l1 or not (a disabled chord next to an enabled
+            // superset / subset of it is the interesting case)
+            let disabled: Vec<bool> = table.iter().map(|_| use_disabled && r.chance(600)).collect();
             for (i, (ks, m)) in table.iter().enumerate() {
                 let names: Vec<&str> = ks.iter().map(|k| PK[*k]).collect();
-                ents.push(format!("({}) {m} {t} {} ({})", names.join(" "), release_beh[i], if use_disabled { "l1" } else { "" }));
+                ents.push(format!("({}) {m} {t} {} ({})", names.join(" "), release_beh[i], if disabled[i] { "l1" } else { "" }));
             }
+            case.set("disabled", disabled.iter().map(|d| if *d { "1" } else { "0" }).collect::<Vec<_>>().join(","));
             cfg.push_str(&format!("(defchordsv2 {})\n", ents.join(" ")));
         } else {
             cfg.push_str(&format!("(defsrc {} f)\n", keys.join(" ")));
@@ -151,6 +155,13 @@ impl Prop for C09 {
                 }
                 ops.push(Op::Press(codes[*k]));
             }
+            // optionally an unrelated key is pressed while the chord keys are still pending
+            let foreign = r.chance(250);
+            if foreign {
+                ops.push(Op::Gap(r.range(0, 2) as u32));
+                ops.push(Op::Press(f));
+                case.set("foreign", 1);
+            }
             // held past the timeout, or released early (the chord is then decided by the release)
             let early = r.chance(350);
             let hold = if early { r.range(1, t.saturating_sub(total + 2).max(1).min(12)) } else { t + 30 + r.range(0, 20) };
@@ -161,6 +172,10 @@ impl Prop for C09 {
             for k in rel {
                 ops.push(Op::Release(codes[k]));
                 ops.push(Op::Gap(if long_between { r.range(20, 60) + t } else { r.range(0, 8) } as u32));
+            }
+            if foreign {
+                ops.push(Op::Release(f));
+                ops.push(Op::Gap(3));
             }
             if on_disabled {
                 ops.push(Op::Gap(20));
@@ -293,8 +308,19 @@ impl Prop for C09 {
             if span + 1 >= t && span <= t + 1 {
                 o.count("boundary.span-at-timeout", 1);
             }
+            let disabled_flags: Vec<bool> = case.param("disabled").unwrap_or("").split(',').map(|x| x == "1").collect();
+            let is_disabled = |ks: &Vec<usize>| -> bool { on_disabled && table.iter().position(|(k2, _)| k2 == ks).and_then(|i| disabled_flags.get(i).copied()).unwrap_or(false) };
+            let foreign = case.param_flag("foreign");
+            // a chord that is disabled on the active layer never fires there, whatever else happens
+            if on_disabled && v2 && !o.failed() {
+                for (ks, m) in &table {
+                    if is_disabled(ks) && marker_presses.iter().any(|e| e.key == up(m)) {
+                        o.set_fail("C09:chord-fired-on-disabled-layer", format!("chord {ks:?} -> {} is disabled on the active layer but fired: {}", up(m), outs_short(&outs)), vec![]);
+                    }
+                }
+            }
             if let Some((ks, m)) = defined {
-                if clearly_within && !on_disabled {
+                if clearly_within && !is_disabled(ks) && !foreign && !(on_disabled && table.iter().any(|(k2, _)| is_disabled(k2))) {
                     let want = up(m);
                     let got: Vec<String> = marker_presses.iter().map(|e| e.key.clone()).collect();
                     if got != vec![want.clone()] {
@@ -327,12 +353,6 @@ impl Prop for C09 {
                                 o.set_fail("C09:all-released-chord-released-early", format!("all-released chord {want}: last participant released at {last_rel}, marker released at {m_rel}: {}", outs_short(&outs)), vec![]);
                             }
                         }
-                    }
-                }
-                if on_disabled && v2 && !o.failed() {
-                    // chord disabled on the active layer: only single markers
-                    if marker_presses.iter().any(|e| marker_set.iter().any(|(mm, k2)| *mm == e.key && k2.len() >= 2)) {
-                        o.set_fail("C09:chord-fired-on-disabled-layer", format!("chord fired although its layer is disabled: {}", outs_short(&outs)), vec![]);
                     }
                 }
             }
